@@ -29,8 +29,66 @@ pub struct Case {
     pub regular: Option<(u32, u32)>,
 }
 
+/// Frame content: a frame is opaque to the buffer, so besides filler the content imitates what the
+/// surrounding protocol looks like (one content seed in four): the magic cookie at every small
+/// offset, a whole STUN header (framed or not), further 16-bit length prefixes, the frame's own
+/// length repeated. A buffer that peeks into the payload misreads exactly such frames.
 fn frame_bytes(len: u32, seed: u64) -> Vec<u8> {
-    fill_bytes(len.min(65535) as usize, seed, (seed % 4) as u8)
+    let l = len.min(65535) as usize;
+    let mut v = fill_bytes(l, seed, (seed % 4) as u8);
+    let kind = (seed >> 8) % 16;
+    const COOKIE: [u8; 4] = [0x21, 0x12, 0xa4, 0x42];
+    let put = |v: &mut Vec<u8>, at: usize, b: &[u8]| {
+        for (i, x) in b.iter().enumerate() {
+            if at + i < v.len() {
+                v[at + i] = *x;
+            }
+        }
+    };
+    match kind {
+        0 => {
+            // the cookie at one small offset
+            put(&mut v, ((seed >> 16) % 12) as usize, &COOKIE);
+        }
+        1 => {
+            // a STUN header at offset 0 or 2 whose length field fits, exceeds or undercuts the frame
+            let off = if (seed >> 16) & 1 == 0 { 0 } else { 2 };
+            let body = match (seed >> 17) % 4 {
+                0 => l.saturating_sub(20 + off),
+                1 => 0,
+                2 => l,
+                _ => ((seed >> 24) % 64) as usize * 4,
+            } as u16;
+            let ty = [0x0001u16, 0x0101, 0x0111, 0x0011, 0x0000][((seed >> 20) % 5) as usize];
+            let mut h = vec![];
+            h.extend_from_slice(&ty.to_be_bytes());
+            h.extend_from_slice(&body.to_be_bytes());
+            h.extend_from_slice(&COOKIE);
+            put(&mut v, off, &h);
+        }
+        2 => {
+            // the content reads as further length-prefixed frames
+            let mut at = 0usize;
+            let mut x = seed | 1;
+            while at + 2 <= l {
+                x ^= x << 13;
+                x ^= x >> 7;
+                x ^= x << 17;
+                let n = (x % 40) as u16;
+                put(&mut v, at, &n.to_be_bytes());
+                at += 2 + n as usize;
+            }
+        }
+        3 => {
+            // the frame's own length, and the cookie, over and over
+            let lb = (l as u16).to_be_bytes();
+            for i in 0..l {
+                v[i] = if (i / 4) % 2 == 0 { COOKIE[i % 4] } else { lb[i % 2] };
+            }
+        }
+        _ => {}
+    }
+    v
 }
 
 fn test(c: &Case, st: &mut Stats) -> TestResult {
